@@ -23,8 +23,8 @@ PROPS = {
         design_ref="DESIGN.md §7 C02", assumptions=[]),
     "C03": dict(
         level="exploration",
-        technique="contract-based deductive verification (AST->VC, z3) of the TemporalHypergraph methods incl. the half-open time window + bounded run-time contract checking against a ghost map (time, node set) -> (weight, metadata)",
-        text=("Mutators (negative times rejected), node removal with and without shrinking, and queries incl. get_edges(time_window=(a,b)) = exactly the records with a <= t < b are discharged deductively; snapshots, aggregate(w), non-integer times and the remaining queries are covered by the bounded tier over all histories of a stated small scope plus seeded random histories, 20 windows, 4 widths, with derivations shown not to change the object. Claimed as exploration."),
+        technique="contract-based deductive verification (AST->VC, z3) of the TemporalHypergraph methods incl. the half-open time window, the snapshots and aggregate + bounded run-time contract checking against a ghost map (time, node set) -> (weight, metadata)",
+        text=("Mutators (negative times rejected), node removal with and without shrinking, and queries incl. get_edges(time_window=(a,b)) = exactly the records with a <= t < b are discharged deductively; the per-time snapshots and aggregate(w) (keys 0..K-1 with the last window holding the largest time; window w has all nodes, exactly the hyperedges with a record in [w*width, (w+1)*width) and the summed weights; sorted() modelled as a time-ordered duplicate-free listing) are discharged deductively as well; non-integer times and the remaining queries are covered by the bounded tier over all histories of a stated small scope plus seeded random histories, 20 windows, 4 widths, with derivations shown not to change the object. Claimed as exploration."),
         design_ref="DESIGN.md §7 C03", assumptions=[]),
     "C04": dict(
         level="exploration",
